@@ -5,6 +5,10 @@
 (3) the frozen ENUMERATED generator harness/streamb_gen2.py (families sb_nest*): the exhaustive tiny scope — every ordered
     pair / triple of a 12-operation alphabet over a nested base tree x 8 flavours (all id-style combinations) x acting
     side x 4 systematic schedules, one-sided and two-sided-disjoint; quick = every pair case, thorough = everything.
+(4) the frozen ENUMERATED generator harness/streamb_gen3.py (families sb_reuse*): path re-use on one side — every ordered
+    pair / triple of an 8-operation alphabet that vacates a path and re-occupies it, one-sided and with one operation of
+    the other side in between, x 8 flavours x acting side x 6-8 systematic schedules (S0-S4 and 'carried to the peer, echo
+    not yet taken in'); quick = every pair + the 'modify first' triples (core), thorough = everything.
 A rejected case whose id is listed (status open) in known_findings.json prints KNOWN-FINDING; any other
 rejected case is a VIOLATION.  The list is never written at run time (harness/tools_known.py builds it).
 """
@@ -17,9 +21,11 @@ from . import explore as X
 from . import framework as fw
 
 from . import streamb_gen2 as _G2
+from . import streamb_gen3 as _G3
 
 # generator (version) behind each family
-FAMILY_VERSION = {"sb_nest": _G2.VERSION, "sb_nest_one": _G2.VERSION, "sb_nest_two": _G2.VERSION}
+FAMILY_VERSION = {"sb_nest": _G2.VERSION, "sb_nest_one": _G2.VERSION, "sb_nest_two": _G2.VERSION,
+                  "sb_reuse": _G3.VERSION, "sb_reuse_one": _G3.VERSION, "sb_reuse_two": _G3.VERSION}
 
 
 def family_version(fam):
@@ -29,14 +35,17 @@ def family_version(fam):
 
 # per property: the monitor mode under which the Stream B cases are judged, the generator families and sizes
 # (family, n_quick, n_thorough): the first n indices of the family's enumeration.  sb_nest*: quick = every pair-history
-# case (N_PAIRS*), thorough = the whole enumeration (pairs + triples).
+# case (N_PAIRS*), thorough = the whole enumeration (pairs + triples).  sb_reuse*: quick = the core blocks (every pair case +
+# the triples that start with 'write x': N_CORE_*), thorough = the whole enumeration.
 PLAN = {
     "C01": dict(mode=dict(origin=None, check_spec=False, no_conflicted=False, cov_every_step=False),
-                families=[("sb_one", 2000, 30000), ("sb_two", 2000, 30000), ("sb_nest", _G2.N_PAIRS, _G2.N_ALL)], ignore={10}),
+                families=[("sb_one", 2000, 30000), ("sb_two", 2000, 30000), ("sb_nest", _G2.N_PAIRS, _G2.N_ALL),
+                          ("sb_reuse", _G3.N_CORE_ALL, _G3.N_ALL)], ignore={10}),
     "C02": dict(mode=dict(origin=None, check_spec=False, no_conflicted=False, cov_every_step=False),
                 families=[("sb_two", 3000, 30000)], only={6, 10}),
-    "C03": dict(mode="own", families=[("sb_one", 3000, 30000), ("sb_nest_one", _G2.N_PAIRS_ONE, _G2.N_ONE)], ignore={10}),
-    "C04": dict(mode="own", families=[("sb_nest_two", _G2.N_PAIRS_TWO, _G2.N_TWO)], ignore={10}),
+    "C03": dict(mode="own", families=[("sb_one", 3000, 30000), ("sb_nest_one", _G2.N_PAIRS_ONE, _G2.N_ONE),
+                                      ("sb_reuse_one", _G3.N_CORE_ONE, _G3.N_ONE)], ignore={10}),
+    "C04": dict(mode="own", families=[("sb_nest_two", _G2.N_PAIRS_TWO, _G2.N_TWO), ("sb_reuse_two", _G3.N_CORE_TWO, _G3.N_TWO)], ignore={10}),
     "C06": dict(mode=None, families=[]),
     "C07": dict(mode=None, families=[]),
     "C10": dict(mode=None, families=[]),
